@@ -1,6 +1,6 @@
 //! Contracts for `rt::atomic` (child module of `rt::atomic`).
 use super::*;
-use crate::{oblige, reach};
+use crate::{must_not_reach, oblige, reach};
 
 // ================================================================================================
 // C12: the sequential-cell contract model of `rt::Atomic<T>` used by the wrapper-layer harnesses.
@@ -631,3 +631,270 @@ fn s_firstseen() {
     reach!("s_firstseen");
 }
 
+
+// ================================================================================================
+// C12.glue: rt::Atomic<T> (object-store lookup, branch, tick, candidate selection, path, u64
+// conversion, with_mut write-back) refines the sequential-cell model in a one-thread execution.
+// Real: Atomic::{new,load,store,rmw,unsync_load,with_mut}, rt::branch, rt::synchronize,
+//       Ref::branch_action/set_action, Path::{is_traversed,push_load,branch_load},
+//       State::{load,store,rmw,track_*}.
+// Models: Execution::schedule (N=1), State::match_*_to_stores (C12.seq), join/ahead/is_seen_by_current.
+// ================================================================================================
+
+impl State {
+    /// Contract model of `match_load_to_stores` under `wf_single` (proved: c12_cell_match_*).
+    pub(crate) fn match_load_single_model(&self, _threads: &thread::Set, dst: &mut [u8], _o: Ordering) -> usize {
+        dst[0] = index(self.cnt - 1) as u8;
+        1
+    }
+    /// Contract model of `match_rmw_to_stores` under `wf_single` (proved: c12_cell_match_*).
+    pub(crate) fn match_rmw_single_model(&self, dst: &mut [u8]) -> usize {
+        dst[0] = index(self.cnt - 1) as u8;
+        1
+    }
+}
+
+/// One-thread execution holding one atomic (object 0) in ring phase (k, full), satisfying
+/// `wf_single_k`; empty path (the atomic's operations are about to branch anew).
+fn glue_exec(k: usize, full: bool) -> (ManuallyDrop<Execution>, Atomic<u64>) {
+    let set = any_set(1);
+    crate::rt::thread::verif_kani::assume_incrementable(&set);
+    kani::assume(crate::rt::thread::verif_kani::wf_thread_clocks(&set));
+    kani::assume(matches!(thread_at(&set, 0).state, thread::State::Runnable { .. }));
+    // A6: the operation's own tick must not reach the u16::MAX sentinel of FirstSeen
+    kani::assume(vv_get(&thread_at(&set, 0).causality, 0) < u16::MAX - 1);
+    let mut st = any_atomic_state();
+    st.cnt = cnt_for(k, full);
+    let c = thread_at(&set, 0).causality;
+    kani::assume(wf_single_k(&atomic_view(&st), &c, k, full) && st.cnt < u16::MAX);
+    let mut ex = crate::rt::execution::verif_kani::exec_with(ManuallyDrop::into_inner(set), 4);
+    let r = crate::rt::execution::verif_kani::objects_mut(&mut ex).insert(st);
+    (ex, Atomic { state: r, _p: PhantomData })
+}
+
+fn glue_view(ex: &Execution, a: &Atomic<u64>) -> AtomicView {
+    atomic_view(a.state.get(crate::rt::execution::verif_kani::objects(ex)))
+}
+
+/// Abstraction function to the sequential cell: the value of the newest store.
+fn cell_of(v: &AtomicView, k: usize) -> u64 {
+    v.stores[newest_for(k)].value
+}
+
+macro_rules! c12_glue_instances {
+    ($load:ident, $store:ident, $rmw:ident, $owned:ident, $k:expr, $full:expr) => {
+        crate::with_fire_forbidden! {
+        #[kani::proof]
+        #[kani::unwind(12)]
+        #[kani::stub(crate::rt::execution::Execution::schedule, crate::rt::execution::Execution::schedule_model_n1)]
+        #[kani::stub(crate::rt::atomic::State::match_load_to_stores, crate::rt::atomic::State::match_load_single_model)]
+        #[kani::stub(crate::rt::atomic::State::match_rmw_to_stores, crate::rt::atomic::State::match_rmw_single_model)]
+        fn $load() {
+            let (mut ex, a) = glue_exec($k, $full);
+            let old = glue_view(&ex, &a);
+            let o = any_order();
+            let r = crate::rt::scheduler::verif_kani::with_ctx(&mut ex, || a.load(Location::disabled(), o));
+            let new = glue_view(&ex, &a);
+            oblige!("C12.glue.load_returns_cell", r == cell_of(&old, $k));
+            oblige!("C12.glue.load_keeps_cell", new.cnt == old.cnt && values_unchanged(&old, &new));
+            let c2 = crate::rt::thread::verif_kani::thread_at(&ex.threads, 0).causality;
+            oblige!("C12.glue.load_preserves_wf_single", wf_single_k(&new, &c2, $k, $full));
+            reach!("c12_glue_load");
+        }
+        }
+
+        crate::with_fire_forbidden! {
+        #[kani::proof]
+        #[kani::unwind(12)]
+        #[kani::stub(crate::rt::execution::Execution::schedule, crate::rt::execution::Execution::schedule_model_n1)]
+        fn $store() {
+            let (mut ex, a) = glue_exec($k, $full);
+            let old = glue_view(&ex, &a);
+            let o = any_order();
+            let x: u64 = kani::any();
+            crate::rt::scheduler::verif_kani::with_ctx(&mut ex, || a.store(Location::disabled(), x, o));
+            let new = glue_view(&ex, &a);
+            let (k2, full2) = if $full { (($k + 1) % H, true) } else if $k + 1 == H { (0, true) } else { ($k + 1, false) };
+            oblige!("C12.glue.store_sets_cell", new.cnt == old.cnt + 1 && cell_of(&new, k2) == x);
+            let c2 = crate::rt::thread::verif_kani::thread_at(&ex.threads, 0).causality;
+            oblige!("C12.glue.store_preserves_wf_single", wf_single_k(&new, &c2, k2, full2));
+            reach!("c12_glue_store");
+        }
+        }
+
+        crate::with_fire_forbidden! {
+        #[kani::proof]
+        #[kani::unwind(12)]
+        #[kani::stub(crate::rt::execution::Execution::schedule, crate::rt::execution::Execution::schedule_model_n1)]
+        #[kani::stub(crate::rt::atomic::State::match_load_to_stores, crate::rt::atomic::State::match_load_single_model)]
+        #[kani::stub(crate::rt::atomic::State::match_rmw_to_stores, crate::rt::atomic::State::match_rmw_single_model)]
+        fn $rmw() {
+            let (mut ex, a) = glue_exec($k, $full);
+            let old = glue_view(&ex, &a);
+            let (so, fo) = (any_order(), any_order());
+            let next: u64 = kani::any();
+            let fail: bool = kani::any();
+            let r = crate::rt::scheduler::verif_kani::with_ctx(&mut ex, || {
+                a.rmw(Location::disabled(), so, fo, |p| if fail { Err(p.wrapping_add(1)) } else { Ok(next) })
+            });
+            let new = glue_view(&ex, &a);
+            let c2 = crate::rt::thread::verif_kani::thread_at(&ex.threads, 0).causality;
+            if fail {
+                oblige!("C12.glue.rmw_err_is_closure_error_and_keeps_cell",
+                    r == Err(cell_of(&old, $k).wrapping_add(1)) && new.cnt == old.cnt && values_unchanged(&old, &new));
+                oblige!("C12.glue.rmw_preserves_wf_single", wf_single_k(&new, &c2, $k, $full));
+            } else {
+                let (k2, full2) = if $full { (($k + 1) % H, true) } else if $k + 1 == H { (0, true) } else { ($k + 1, false) };
+                oblige!("C12.glue.rmw_ok_returns_old_cell_and_sets_new", r == Ok(cell_of(&old, $k)) && cell_of(&new, k2) == next && new.cnt == old.cnt + 1);
+                oblige!("C12.glue.rmw_preserves_wf_single", wf_single_k(&new, &c2, k2, full2));
+            }
+            reach!("c12_glue_rmw");
+        }
+        }
+
+        crate::with_fire_forbidden! {
+        #[kani::proof]
+        #[kani::unwind(12)]
+        fn $owned() {
+            let (mut ex, mut a) = glue_exec($k, $full);
+            let old = glue_view(&ex, &a);
+            let u = crate::rt::scheduler::verif_kani::with_ctx(&mut ex, || a.unsync_load(Location::disabled()));
+            oblige!("C12.glue.unsync_load_returns_cell", u == cell_of(&old, $k));
+            let mid = glue_view(&ex, &a);
+            oblige!("C12.glue.unsync_load_keeps_cell", mid.cnt == old.cnt && values_unchanged(&old, &mid));
+            let x: u64 = kani::any();
+            let seen = crate::rt::scheduler::verif_kani::with_ctx(&mut ex, || {
+                a.with_mut(Location::disabled(), |p| {
+                    let s = *p;
+                    *p = x;
+                    s
+                })
+            });
+            let new = glue_view(&ex, &a);
+            oblige!("C12.glue.with_mut_sees_cell", seen == cell_of(&old, $k));
+            oblige!("C12.glue.with_mut_writes_back", new.cnt == old.cnt && cell_of(&new, $k) == x && !new.is_mutating);
+            let c2 = crate::rt::thread::verif_kani::thread_at(&ex.threads, 0).causality;
+            oblige!("C12.glue.owned_ops_preserve_wf_single", wf_single_k(&new, &c2, $k, $full));
+            reach!("c12_glue_owned");
+        }
+        }
+    };
+}
+
+//@ name=c12_glue_load_p1 props=C12 tier=quick fns=src/rt/atomic.rs::Atomic::load,src/rt/mod.rs::synchronize,src/rt/mod.rs::branch,src/rt/object.rs::Ref::branch_action,src/rt/path.rs::Path::push_load,src/rt/path.rs::Path::branch_load models=Execution::schedule=c05_schedule_n1,State::match_load_to_stores=c12_cell_match_*
+//@ name=c12_glue_store_p1 props=C12 tier=quick fns=src/rt/atomic.rs::Atomic::store models=Execution::schedule=c05_schedule_n1
+//@ name=c12_glue_rmw_p1 props=C12 tier=quick fns=src/rt/atomic.rs::Atomic::rmw models=Execution::schedule=c05_schedule_n1,State::match_rmw_to_stores=c12_cell_match_*
+//@ name=c12_glue_owned_p1 props=C12 tier=quick fns=src/rt/atomic.rs::Atomic::unsync_load,src/rt/atomic.rs::Atomic::with_mut,src/rt/atomic.rs::State::track_unsync_load,src/rt/atomic.rs::State::track_unsync_mut
+c12_glue_instances!(c12_glue_load_p1, c12_glue_store_p1, c12_glue_rmw_p1, c12_glue_owned_p1, 1, false);
+//@ name=c12_glue_load_w0 props=C12 tier=thorough fns=src/rt/atomic.rs::Atomic::load models=Execution::schedule=c05_schedule_n1,State::match_load_to_stores=c12_cell_match_*
+//@ name=c12_glue_store_w0 props=C12 tier=quick fns=src/rt/atomic.rs::Atomic::store models=Execution::schedule=c05_schedule_n1
+//@ name=c12_glue_rmw_w0 props=C12 tier=thorough fns=src/rt/atomic.rs::Atomic::rmw models=Execution::schedule=c05_schedule_n1,State::match_rmw_to_stores=c12_cell_match_*
+//@ name=c12_glue_owned_w0 props=C12 tier=quick fns=src/rt/atomic.rs::Atomic::unsync_load,src/rt/atomic.rs::Atomic::with_mut
+c12_glue_instances!(c12_glue_load_w0, c12_glue_store_w0, c12_glue_rmw_w0, c12_glue_owned_w0, 0, true);
+
+crate::with_fire_forbidden! {
+//@ props=C12 tier=quick fns=src/rt/atomic.rs::Atomic::new,src/rt/object.rs::Store::insert
+#[kani::proof]
+#[kani::unwind(12)]
+fn c12_glue_new() {
+    let set = any_set(1);
+    crate::rt::thread::verif_kani::assume_incrementable(&set);
+    kani::assume(crate::rt::thread::verif_kani::wf_thread_clocks(&set));
+    let mut ex = crate::rt::execution::verif_kani::exec_with(ManuallyDrop::into_inner(set), 4);
+    let v: u64 = kani::any();
+    let a = crate::rt::scheduler::verif_kani::with_ctx(&mut ex, || Atomic::<u64>::new(v, Location::disabled()));
+    let av = glue_view(&ex, &a);
+    let c = crate::rt::thread::verif_kani::thread_at(&ex.threads, 0).causality;
+    oblige!("C12.glue.new_sets_cell", av.cnt == 1 && cell_of(&av, 1) == v);
+    oblige!("C12.glue.new_establishes_wf_single", wf_single_k(&av, &c, 1, false));
+    reach!("c12_glue_new");
+}
+}
+
+// ================================================================================================
+// C04: the non-atomic view of atomics (track_load / track_store / track_unsync_load / track_unsync_mut)
+// Conflict matrix of the property: with_mut conflicts with every other access; unsync_load conflicts
+// with atomic stores and with_mut; atomic load || atomic store and load || unsync_load do not conflict.
+// ================================================================================================
+
+fn race_active_causality(set: &thread::Set) -> VersionVec {
+    thread_at(set, crate::rt::thread::verif_kani::active_index(set).unwrap()).causality
+}
+
+crate::with_fire_forbidden! {
+//@ props=C04 tier=quick fns=src/rt/atomic.rs::State::track_load,src/rt/atomic.rs::State::track_store,src/rt/atomic.rs::State::track_unsync_load,src/rt/atomic.rs::State::track_unsync_mut models=VersionVec::join=s_vv_models_agree,VersionVec::ahead=s_vv_models_agree,PanicBuilder::fire=forbidden
+#[kani::proof]
+#[kani::unwind(9)]
+fn c04_atomic_track_ordered_access_is_silent() {
+    let set = any_set(3);
+    let c = race_active_causality(&set);
+    let mut st = any_atomic_state();
+    let old = atomic_view(&st);
+    let k: u8 = kani::any();
+    match k {
+        0 => {
+            kani::assume(vv_le(&old.unsync_mut_at, &c));
+            st.track_load(&set);
+            let new = atomic_view(&st);
+            oblige!("C04.atomic.track_load.exact_update", is_join(&new.loaded_at, &old.loaded_at, &c)
+                && vv_eq(&new.stored_at, &old.stored_at) && vv_eq(&new.unsync_loaded_at, &old.unsync_loaded_at) && vv_eq(&new.unsync_mut_at, &old.unsync_mut_at));
+        }
+        1 => {
+            kani::assume(vv_le(&old.unsync_mut_at, &c) && vv_le(&old.unsync_loaded_at, &c));
+            st.track_store(&set);
+            let new = atomic_view(&st);
+            oblige!("C04.atomic.track_store.exact_update", is_join(&new.stored_at, &old.stored_at, &c)
+                && vv_eq(&new.loaded_at, &old.loaded_at) && vv_eq(&new.unsync_loaded_at, &old.unsync_loaded_at) && vv_eq(&new.unsync_mut_at, &old.unsync_mut_at));
+        }
+        2 => {
+            kani::assume(vv_le(&old.unsync_mut_at, &c) && vv_le(&old.stored_at, &c));
+            st.track_unsync_load(&set);
+            let new = atomic_view(&st);
+            oblige!("C04.atomic.track_unsync_load.exact_update", is_join(&new.unsync_loaded_at, &old.unsync_loaded_at, &c)
+                && vv_eq(&new.loaded_at, &old.loaded_at) && vv_eq(&new.stored_at, &old.stored_at) && vv_eq(&new.unsync_mut_at, &old.unsync_mut_at));
+        }
+        _ => {
+            kani::assume(vv_le(&old.unsync_mut_at, &c) && vv_le(&old.stored_at, &c) && vv_le(&old.loaded_at, &c) && vv_le(&old.unsync_loaded_at, &c));
+            st.track_unsync_mut(&set);
+            let new = atomic_view(&st);
+            oblige!("C04.atomic.track_unsync_mut.exact_update", is_join(&new.unsync_mut_at, &old.unsync_mut_at, &c)
+                && vv_eq(&new.loaded_at, &old.loaded_at) && vv_eq(&new.stored_at, &old.stored_at) && vv_eq(&new.unsync_loaded_at, &old.unsync_loaded_at));
+        }
+    }
+    let new = atomic_view(&st);
+    oblige!("C04.atomic.track.ring_untouched", new.cnt == old.cnt && values_unchanged(&old, &new) && !new.is_mutating);
+    reach!("c04_atomic_track_ordered");
+}
+}
+
+crate::with_fire_expected! {
+//@ props=C04 tier=quick fns=src/rt/atomic.rs::State::track_load,src/rt/atomic.rs::State::track_store,src/rt/atomic.rs::State::track_unsync_load,src/rt/atomic.rs::State::track_unsync_mut models=VersionVec::ahead=s_vv_models_agree,PanicBuilder::fire=expected
+#[kani::proof]
+#[kani::unwind(9)]
+fn c04_atomic_track_unordered_conflict_is_reported() {
+    let set = any_set(3);
+    let c = race_active_causality(&set);
+    let mut st = any_atomic_state();
+    let old = atomic_view(&st);
+    let k: u8 = kani::any();
+    match k {
+        0 => {
+            kani::assume(!vv_le(&old.unsync_mut_at, &c));
+            st.track_load(&set);
+        }
+        1 => {
+            kani::assume(!vv_le(&old.unsync_mut_at, &c) || !vv_le(&old.unsync_loaded_at, &c));
+            st.track_store(&set);
+        }
+        2 => {
+            kani::assume(!vv_le(&old.unsync_mut_at, &c) || !vv_le(&old.stored_at, &c));
+            st.track_unsync_load(&set);
+        }
+        _ => {
+            kani::assume(!vv_le(&old.unsync_mut_at, &c) || !vv_le(&old.stored_at, &c) || !vv_le(&old.loaded_at, &c) || !vv_le(&old.unsync_loaded_at, &c));
+            st.track_unsync_mut(&set);
+        }
+    }
+    must_not_reach!("C04.atomic.track.returns_silently_despite_unordered_conflict");
+}
+}
